@@ -22,6 +22,19 @@ def spaced(cpp: str) -> str:
     return cpp.replace(',', ', ')
 
 
+def spaced_inner(cpp: str) -> str:
+    """to_cpp() spelling of a typedef'd forward declaration: ',' between its own template
+    arguments, ', ' inside nested ones."""
+    out, depth = [], 0
+    for ch in cpp:
+        if ch == '<':
+            depth += 1
+        elif ch == '>':
+            depth -= 1
+        out.append(', ' if ch == ',' and depth >= 2 else ch)
+    return ''.join(out)
+
+
 def classes_of(items, out=None):
     if out is None:
         out = []
@@ -60,7 +73,7 @@ def options(draw, m, items):
         for c in draw(st.permutations(cls))[:k]:
             # to_cpp() of a class joins template arguments with ', ', that of a typedef'd
             # forward declaration with ','; the ignore list is compared with that spelling
-            ignore.append(spaced(c['cpp']) if c['k'] == 'class' else c['cpp'])
+            ignore.append(spaced(c['cpp']) if c['k'] == 'class' else spaced_inner(c['cpp']))
     if draw(st.integers(0, 4)) == 0:
         ignore.append(draw(st.sampled_from(['gtsam::NoSuch', 'A', 'ns1::B<double>'])))
     boost = draw(st.booleans())
